@@ -27,11 +27,12 @@ import (
 func init() { drivers["C13"] = driveC13 }
 
 type c13Case struct {
-	WorldSeed int64        `json:"world_seed"`
-	OpSeed    int64        `json:"op_seed"`
-	Op        *gen.GenOp   `json:"operation,omitempty"`
-	Faults    []c13Fault   `json:"faults,omitempty"`
-	Perturb   int64        `json:"perturbation_seed"`
+	WorldSeed int64      `json:"world_seed"`
+	Domain    string     `json:"world_domain,omitempty"` // "" = inD01, "unions" = many union-typed fields
+	OpSeed    int64      `json:"op_seed"`
+	Op        *gen.GenOp `json:"operation,omitempty"`
+	Faults    []c13Fault `json:"faults,omitempty"`
+	Perturb   int64      `json:"perturbation_seed"`
 }
 type c13Fault struct {
 	URL   string     `json:"url"`
@@ -143,14 +144,46 @@ func driveC13(seed int64, tier, out, replay string) {
 	if tier == "thorough" {
 		nWorlds, per, k = 120, 20, 12
 	}
+	rigs := map[string]*Rig{}
+	getRig := func(seed int64, dom string) *Rig {
+		if dom == "" {
+			dom = "inD01"
+		}
+		rk := fmt.Sprint(seed, dom)
+		r, ok := rigs[rk]
+		if !ok {
+			var err error
+			r, err = NewRig(worldFor(seed, dom), RigConfig{})
+			if err != nil {
+				r = nil
+			}
+			rigs[rk] = r
+		}
+		return r
+	}
 	var cases []c13Case
 	if replay != "" {
 		cases = loadReplayCases[c13Case](replay)
 	} else {
 		for i := 0; i < nWorlds; i++ {
 			ws := rng.Int63()
+			if i%3 == 2 {
+				// a world that offers a union-typed field below a root object, if one of the next few does
+				for t := int64(0); t < 12; t++ {
+					if r := getRig(ws+t, "unions"); r != nil {
+						if _, ok := gen.SharedAbstractOperation(hx.NewRand(1), r.Merged, gen.OpOptions{}); ok {
+							ws += t
+							break
+						}
+					}
+				}
+			}
 			for j := 0; j < per; j++ {
-				cases = append(cases, c13Case{WorldSeed: ws, OpSeed: rng.Int63(), Perturb: rng.Int63()})
+				c := c13Case{WorldSeed: ws, OpSeed: rng.Int63(), Perturb: rng.Int63()}
+				if i%3 == 2 {
+					c.Domain = "unions"
+				}
+				cases = append(cases, c)
 			}
 		}
 	}
@@ -177,18 +210,9 @@ func driveC13(seed int64, tier, out, replay string) {
 	}
 	var coq []string
 	distinct := map[string]bool{}
-	rigs := map[int64]*Rig{}
 	idx := 0
 	for _, c := range cases {
-		r, ok := rigs[c.WorldSeed]
-		if !ok {
-			var err error
-			r, err = NewRig(worldFor(c.WorldSeed, "inD01"), RigConfig{})
-			if err != nil {
-				r = nil
-			}
-			rigs[c.WorldSeed] = r
-		}
+		r := getRig(c.WorldSeed, c.Domain)
 		if r == nil {
 			continue
 		}
@@ -197,10 +221,16 @@ func driveC13(seed int64, tier, out, replay string) {
 			op = *c.Op
 		} else {
 			orng := hx.NewRand(c.OpSeed)
-			op = gen.Operation(orng, r.Merged, opOptionsFor("inD01", r.World))
+			oo := opOptionsFor("inD01", r.World)
+			oo.UnevenIDs = c.OpSeed%3 == 0
+			op = gen.Operation(orng, r.Merged, oo)
 			if orng.Intn(4) == 0 {
 				if mop, ok := gen.MultiNodeRootOperation(orng, r.Merged, opOptionsFor("inD01", r.World)); ok {
 					op = mop
+				}
+			} else if c.Domain == "unions" && orng.Intn(4) != 0 {
+				if sop, ok := gen.SharedAbstractOperation(orng, r.Merged, oo); ok {
+					op = sop
 				}
 			}
 			c.Op = &op
@@ -210,6 +240,11 @@ func driveC13(seed int64, tier, out, replay string) {
 			continue
 		}
 		hx.Current(out, idx, c)
+		for _, f := range op.Features {
+			if f == "shared_abstract" || f == "multi_node_root" || f == "uneven_ids" || f == "abstract" {
+				obs.Count("op_" + f)
+			}
+		}
 		what := ""
 		// (b) the plan is the same every time
 		first, plan, err := planCanon(r, op, o)
